@@ -1011,7 +1011,12 @@ def run_poly(c):
                 lr = parse_range(br)
                 pr = parse_range(l["poly_range"]) if l.get("poly_range") is not None else lr
                 ign = clist([clist([cnat(T.idx(dec_label(x))) for x in t]) for t in (l.get("ignored") or [])])
-                k = (f"(KScale {orig} {sc} ({cq(lr[0])}, {cq(lr[1])}) ({cq(pr[0])}, {cq(pr[1])}) {ign} {sent})")
+                def rng_term(x):
+                    if isinstance(x, list):
+                        return f"(RPair {cq(Fraction(x[0]))} {cq(Fraction(x[1]))})"
+                    return f"(RNum {cq(Fraction(x))})"
+                prt = "None" if l.get("poly_range") is None else f"(Some {rng_term(l['poly_range'])})"
+                k = (f"(KScale {orig} {sc} {rng_term(br)} {prt} {ign} {sent})")
             elif l["t"] == 'fixed':
                 fs = clist([cpair(cnat(T.idx(dec_label(v))), cq(x)) for v, x in (l["fixed"] or [])])
                 k = f"(KFixed {orig} {fs} {sent})"
